@@ -226,6 +226,8 @@ def gen_scenario(seed: int, profile: Optional[dict] = None) -> dict:
         for s_ in sims:
             if rng.random() < prof.get("p_none_values", 0.3):
                 s_["beh"]["p_none"] = 0.15
+            if H(seed, s_["sid"], "dict_values") % 5 == 0:
+                s_["beh"]["dict_values"] = True      # persistent values are dicts with a changing key set
     # future output times only where all connected outputs are non-persistent
     for s in sims:
         outs_conn = [(c["se"], c["sa"]) for c in conns if c["src"] == s["sid"]]
